@@ -100,6 +100,9 @@ func (propC08) Draw(rt *rapid.T, w *WorldDesc, mode string) *Plan {
 		rpc := w.RPC(md.Key)
 		op := &Op{ID: i, RPC: md.Key, Client: client, Server: server, App: AppBehaviour{Kind: "respond"}}
 		op.Opts = drawHeaderOpts(rt, rpc, l+".hdr")
+		if rapid.Bool().Draw(rt, l+".marker") {
+			op.Opts = append(op.Opts, Opt{Kind: "header", Key: fmt.Sprintf("X-Marker-%d", i), Value: fmt.Sprintf("op%d", i)})
+		}
 		req := drawValidReq(rt, w, md, l+".req")
 		resp := NewFilled(rt, md.NewResp, l+".resp", nil)
 		scrubNonFinite(req.ProtoReflect(), 0)
@@ -115,6 +118,7 @@ func (propC08) Draw(rt *rapid.T, w *WorldDesc, mode string) *Plan {
 		}
 		p.Ops = append(p.Ops, op)
 	}
+	p.Sequential = rapid.Bool().Draw(rt, "sequential")
 	p.Schedule = drawSchedule(rt, 64)
 	return p
 }
